@@ -3,14 +3,13 @@
  * @tier quick
  * @functions ZSTD_rescaleFreqs ZSTD_setBasePrices ZSTD_downscaleStats HIST_count_simple
  * @bounds self-composition: the optimal parser's statistics are (re)initialised for the FIRST block of a frame (litLengthSum == 0, as ZSTD_invalidateMatchState leaves it) on two contexts that hold ARBITRARY, different leftovers from earlier frames (price mode, sums, base prices, every entry of the four frequency tables), same input block (0..12 bytes, arbitrary), same literal-compression mode, no dictionary statistics; both optimisation levels
- * @outside dictionary-seeded statistics (Huffman/FSE tables marked valid); later blocks (which by design depend on the previous blocks of the same frame)
+ * @outside literal compression enabled (the instance with the 256-entry literal histogram gave no verdict within 30 min / 10 GB and is not registered; with literals disabled the literal table is not involved); dictionary-seeded statistics (Huffman/FSE tables marked valid); later blocks (which by design depend on the previous blocks of the same frame)
  * @link lib/common/zstd_common.c lib/common/error_private.c lib/compress/hist.c
  * @mem native
  * @cbmc --unwind 260
  * @timeout 300
  * @memgb 6
  * @instance nolit -DH_LCM=ZSTD_ps_disable
- * @instance lit tier=thorough timeout=1800 memgb=16 -DH_LCM=ZSTD_ps_enable
  */
 #include "v.h"
 #include <string.h>
@@ -40,7 +39,7 @@ static void stale(optState_t* o, unsigned* lit, unsigned* ll, unsigned* ml, unsi
 void harness(void)
 {
     optState_t A, B; size_t const n = nondet_size(); int const optLevel = nondet_bool() ? 2 : 0; unsigned i;
-    unsigned const lcm = H_LCM;      /* literal compression off (quick: literal table not involved) / on (thorough) */
+    unsigned const lcm = H_LCM;      /* literal compression off: the literal table is not involved */
     VASSUME(n <= 12);
     for (i = 0; i < 12; i++) g_src[i] = nondet_uchar();
     g_costs.huf.repeatMode = nondet_bool() ? HUF_repeat_none : HUF_repeat_check;       /* no dictionary statistics */
